@@ -894,3 +894,152 @@ def replay_C19(ctx, path):
         return 1
     print('the recorded schedule no longer fails on the current tree')
     return 0
+
+
+# ----------------------------------------------------------------------------------------
+# lifetimes: C04
+# ----------------------------------------------------------------------------------------
+C04_NOTE = ("PARTIAL: rustc's NLL / variance / auto-trait reasoning is observed on the generated corpus only; the static check of coq/Regions.v is a model of "
+            "the loans the signatures create, tied to rustc by that corpus; the abstraction of each Rust program to model commands is the generator's")
+
+
+def c04_predict(ctx, progs):
+    """evaluate Regions.check on the abstraction of every program, with the regenerated tables, inside Coq"""
+    def cmd(c):
+        if c[0] == 'Alloc':
+            return 'Alloc %d %s' % (c[1], c[2])
+        if c[0] == 'Use':
+            return 'Use %d' % c[1]
+        if c[0] == 'Rewind':
+            return 'Rewind %s' % c[1]
+        return c[0]
+    path = os.path.join(CACHE, 'c04_cases.v')
+    with open(path, 'w') as f:
+        f.write('From Coq Require Import List.\nFrom BS Require Import Regions.\nFrom BS.gen Require Import Tables.\nImport ListNotations.\n')
+        f.write('Definition cases : list (list cmd) := [\n')
+        f.write(';\n'.join('  [' + '; '.join(cmd(c) for c in pr['abstract']) + ']' for pr in progs))
+        f.write('].\nEval vm_compute in (map (fun p => (check tables sinit p, dexec dinit p)) cases).\n')
+    rc, out, dt = sh('coqc -noglob -Q %s BS %s' % (COQ, path), timeout=600)
+    for ext in ('.vo', '.vok', '.vos', '.glob'):
+        try:
+            os.remove(path[:-2] + ext)
+        except OSError:
+            pass
+    if rc != 0:
+        return None, out[-600:]
+    body = out[out.index('= [') + 2:]
+    body = body[:body.rindex(']') + 1]
+    pairs = re.findall(r'\(\s*(true|false)\s*,\s*(true|false)\s*\)', body)
+    if len(pairs) != len(progs):
+        return None, 'could not parse the model verdicts (%d of %d)' % (len(pairs), len(progs))
+    return [(a == 'true', b == 'true') for (a, b) in pairs], ''
+
+
+def check_C04(ctx):
+    import c04
+    target = 'Properties/C04'
+    ctx.regen()
+    ok, out = ctx.coq_build(target)
+    nthm, nclosed = (0, 0)
+    if ok:
+        nthm, nclosed = ctx.check_assumptions(target, out)
+    else:
+        nthm = len(ctx.pinned(target)[0])
+    ctx.grep_forbidden()
+    if ctx.tier == 'thorough' and ok:
+        ctx.coqchk(target)
+    # the corpus, judged by rustc against the crate as it is now
+    exe = ctx.cargo_build('arith', release=False)
+    env = dict(os.environ, CARGO_TARGET_DIR=os.path.join(CACHE, 'harness-target'), RUSTFLAGS='--cfg bump_scope_verif', CARGO_NET_OFFLINE='true')
+    rlib, rc, err = c04.find_rlib(os.path.join(VERIF, 'harness'), None, env)
+    if exe is None or rlib is None:
+        ctx.problems.append(('harness', 'cannot build the crate for the corpus: ' + (err or '')))
+        return ctx.finish(level='proof', obligations=nthm, discharged=nclosed, checker_cmd='make -C coq Properties/C04.vo')
+    t0 = time.time()
+    reg, fx, notes = c04.judge_all(rlib, os.path.join(CACHE, 'c04'))
+    ctx.say('corpus: %d region programs + %d thread/settings programs judged by rustc in %.1fs' % (len(reg), len(fx), time.time() - t0))
+    pred, perr = (None, 'proof did not build') if not os.path.exists(os.path.join(COQ, 'gen', 'Tables.vo')) else c04_predict(ctx, reg)
+    n_escape_rejected = 0
+    disagreements = []
+    for i, pr in enumerate(reg):
+        escape = pr['kind'] == 'escape'
+        if escape and pr['accepted']:
+            ctx.violations.append({'kind': 'rust-program', 'name': pr['name'], 'program': pr['src'],
+                                   'what_fails': 'rustc accepts this safe program, which uses a value after the memory it points into may have been handed out again (%s)' % pr['name'],
+                                   'abstract': pr['abstract'], 'signature': 'c04:accepted-escape:' + pr['name'].split('.')[0] + '.' + pr['name'].split('.')[-2],
+                                   'how_to_replay': 'tools/vcheck C04 --replay <this file>'})
+            continue
+        if escape and not (set(pr['codes']) <= c04.BORROWCK | {'lifetime'}):
+            disagreements.append('%s is rejected, but not by the borrow checker: %s %s' % (pr['name'], pr['codes'], pr['first'][:160]))
+            continue
+        if escape:
+            n_escape_rejected += 1
+        if not escape and not pr['accepted']:
+            disagreements.append('the control program %s no longer compiles: %s %s' % (pr['name'], pr['codes'], pr['first'][:160]))
+        if pred is not None:
+            (macc, muse) = pred[i]
+            if macc != pr['accepted']:
+                disagreements.append('model check says %s, rustc %s for %s' % ('accept' if macc else 'reject', 'accepts' if pr['accepted'] else 'rejects', pr['name']))
+            if escape and not muse:
+                disagreements.append('generator: the abstraction of escape program %s does not use memory after reuse' % pr['name'])
+            if not escape and muse:
+                disagreements.append('generator: the abstraction of control program %s uses memory after reuse' % pr['name'])
+    for pr in fx:
+        if pr['expect'] == 'reject' and pr['accepted']:
+            ctx.violations.append({'kind': 'rust-program', 'name': pr['name'], 'program': pr['src'],
+                                   'what_fails': 'rustc accepts this safe program although it must be rejected (%s)' % pr['name'],
+                                   'signature': 'c04:accepted:' + pr['name'], 'how_to_replay': 'tools/vcheck C04 --replay <this file>'})
+        elif pr['expect'] == 'accept' and not pr['accepted']:
+            disagreements.append('the control program %s no longer compiles: %s %s' % (pr['name'], pr['codes'], pr['first'][:160]))
+        elif pr['expect'] == 'reject':
+            want = {'E0080'} if pr['name'].startswith('settings.') else {'E0277'}
+            if not (set(pr['codes']) & want):
+                disagreements.append('%s is rejected for another reason than expected: %s %s' % (pr['name'], pr['codes'], pr['first'][:160]))
+            else:
+                n_escape_rejected += 1
+    if pred is None and not ctx.violations:
+        ctx.problems.append(('tie', 'model verdicts unavailable: ' + perr))
+    if (disagreements or notes) and not ctx.violations:
+        ctx.problems.append(('tie', 'corpus and model disagree on %d program(s); first: %s' % (len(disagreements) + len(notes), (disagreements + notes)[0][:600])))
+    kinds = {}
+    for pr in reg + fx:
+        k = pr['name'].split('.')[0]
+        kinds[k] = kinds.get(k, 0) + 1
+    codes = {}
+    for pr in reg + fx:
+        for c in pr['codes'] or ['accepted']:
+            codes[c] = codes.get(c, 0) + 1
+    ctx.cov.update({
+        'evaluations': len(reg) + len(fx),
+        'distinct_nontrivial': n_escape_rejected,
+        'rule': 'generated safe Rust programs compiled by rustc against the crate as built from the current tree: every allocation-producing call (alloc, alloc_str, alloc_slice_copy, alloc_iter(_mut), alloc_fmt(_mut), alloc_cstr, alloc_uninit, BumpVec/MutBumpVec::into_slice/into_boxed_slice, BumpString/MutBumpString::into_(boxed_)str, stats, allocator) x every handle (Bump, the scope of scoped(), the scope of a scope guard, a pool guard, a claim guard, and the generic trait path B: BumpAllocatorTypedScope with B = &Bump, &mut Bump, &&Bump, &mut &mut Bump, WithoutDealloc/WithoutShrink wrappers, &/&mut BumpScope, BumpScope by value, with and without a forced static lifetime) x every escape route (use after reset / reset_to_start / drop / a second scope / guard reset / guard drop / pool reset / pool drop, return from the closure, store in an outer variable), each with a minimally different control that must compile; plus thread programs (Send only with a Send allocator, never Sync) and settings conversions (post-monomorphisation const assertions, compiled to an executable). The verdict of Regions.check with the regenerated tables on the abstraction of each program is compared with rustc. non-trivial = escape programs rejected by the borrow checker (or by the expected trait / const-evaluation error)',
+        'samples': [pr['name'] for pr in (reg[:4] + reg[-3:] + fx[:3])],
+        'traces_validated_against_impl': len(reg) + len(fx),
+        'input_distribution': {'by_handle': kinds, 'by_rustc_verdict': codes},
+        'mismatches': {'model_vs_rustc': len(disagreements), 'escapes_accepted_by_rustc': len(ctx.violations)},
+        'partial_note': C04_NOTE,
+    })
+    return ctx.finish(level='proof', obligations=nthm, discharged=nclosed,
+                      checker_cmd='make -C coq Properties/C04.vo (coqc 8.16.1; Print Assumptions under each theorem)' + ('; coqchk -o' if ctx.tier == 'thorough' else ''),
+                      extra_assumptions=['signature translator tools/c04.py (regular expressions over impl headers and fn signatures; refuses shapes it does not know); ' + C04_NOTE,
+                                         'the abstraction of each generated Rust program to Regions.cmd is given by the generator (checked: every escape abstraction does use memory after reuse in the dynamic semantics, no control abstraction does)'])
+
+
+def replay_C04(ctx, path):
+    import c04
+    r = json.load(open(path))
+    if r.get('kind') != 'rust-program' or not r.get('program'):
+        print(json.dumps(r, indent=1)[:3000])
+        return check_C04(ctx)
+    exe = ctx.cargo_build('arith', release=False)
+    env = dict(os.environ, CARGO_TARGET_DIR=os.path.join(CACHE, 'harness-target'), RUSTFLAGS='--cfg bump_scope_verif', CARGO_NET_OFFLINE='true')
+    rlib, rc, err = c04.find_rlib(os.path.join(VERIF, 'harness'), None, env)
+    res = c04.run_corpus([{'src': r['program'], 'link': r['name'].startswith('settings.')}], os.path.join(CACHE, 'c04'), rlib, os.path.dirname(rlib))
+    ok, codes, first = res[0]
+    if ok:
+        print('reproduced: rustc accepts the program', r['name'])
+        p = ctx.write_replay('violation', r)
+        print('VIOLATION property=C04 replay=%s' % p)
+        return 1
+    print('rustc rejects the recorded program on the current tree:', codes, first[:200])
+    return 0
